@@ -113,8 +113,30 @@ Inductive case :=
    acked: the first crash is after StartSearch was acknowledged; live: the fractions alive when the
    last resume ran (start-time numbers, larger numbers = fractions that appeared later) *)
 | CCrash (w : world) (chain : list (nat * N)) (acked : bool) (live : list N) (obs_state : dir)
-         (ops : list op) (final : dir) (found done reqok : bool) (res : qpr).
+         (ops : list op) (final : dir) (found done reqok : bool) (res : qpr)
+(* proxy level: the replicas of every shard with their (real) store answers, the synchronous answer of
+   every shard, and what Ingestor.FetchAsyncSearchResult returned (None = NotFound) *)
+| CProxy (naggs : nat) (size hi : N) (rev : bool) (shards : list (list replica)) (syncs : list qpr)
+         (impl : option (bool * qpr)).
 
+(* proxy level: the replicas of every shard with their (real) store answers, the synchronous answer of
+   every shard, and what Ingestor.FetchAsyncSearchResult returned (None = NotFound) *)
+(* spec side, written without the model's functions: first answer of a shard, paired with its sync *)
+Fixpoint first_answer (s : list replica) : option (bool * qpr) :=
+  match s with
+  | [] => None
+  | RAnswer d q :: _ => Some (d, q)
+  | _ :: r => first_answer r
+  end.
+Fixpoint answering (shards : list (list replica)) (syncs : list qpr) : list (bool * qpr) :=
+  match shards, syncs with
+  | s :: shards', y :: syncs' =>
+      match first_answer s with
+      | Some (d, _) => (d, y) :: answering shards' syncs'
+      | None => answering shards' syncs'
+      end
+  | _, _ => []
+  end.
 Definition per_list (w : world) (s : dir) := stored_qprs (w_per w) s.
 
 (* model output = implementation output *)
@@ -138,6 +160,12 @@ Definition case_agrees (c : case) : bool :=
       && Bool.eqb (found s) fnd
       && Bool.eqb (is_done fin) dn
       && qpr_eqb (if found s then fetch_dir (w_hi w) (w_rev w) (w_per w) fin else qpr_zero) res
+  | CProxy naggs size hi rev shards syncs impl =>
+      match proxy_fetch naggs size hi rev shards, impl with
+      | None, None => true
+      | Some (d, q), Some (d', q') => Bool.eqb d d' && qpr_eqb q q'
+      | _, _ => false
+      end
   end.
 
 (* implementation output satisfies the property (independent of the model's protocol and merge) *)
@@ -165,6 +193,18 @@ Definition case_spec_ok (c : case) : bool :=
             && complete_qprs final (w_fs w)
             && same_answer (w_limit w) res (w_sync w)
           else negb fnd)
+  | CProxy naggs size hi rev shards syncs impl =>
+      let ans := answering shards syncs in
+      (length shards =? length syncs)%nat
+      && match impl with
+         | None => nullb ans
+         | Some (d, q) =>
+             negb (nullb ans)
+             (* Done iff every shard that has the request is done *)
+             && Bool.eqb d (forallb fst ans)
+             (* a finished search answers like the synchronous search over all shards *)
+             && (negb d || same_answer size q (sync_search naggs size hi rev (map snd ans)))
+         end
   end.
 
 Definition diff_indices (l : list case) : list nat := bad_indices (fun c => negb (case_agrees c)) l.
